@@ -3,4 +3,5 @@ CONSTANTS
   Bulks = {1, 2, 3}
   MaxCrash = 2
   Fixed = FALSE
+  SkipFsync = FALSE
 ACTION_CONSTRAINT EmitEdge
